@@ -21,12 +21,13 @@ TAB = "\t"
 # ---------------------------------------------------------------- generators
 
 ASCII_POOL = "abcdefgh12!"
-LATIN_POOL = "aeé1ñbü"          # encodable in latin-1 and utf-8
-CYR_POOL = "даброк1е"            # encodable in cp1251 and utf-8
+LATIN_POOL = "ae\u00e91\u00f1b\u00fc"          # encodable in latin-1 and utf-8
+CYR_POOL = "\u0434\u0430\u0431\u0440\u043e\u043a1\u0435"            # encodable in cp1251 and utf-8
 # characters check_valid admits although a line reader may treat them specially
-ODD_POOL = "a b \u001c"   # U+001C is rejected by check_valid (control), kept to exercise the filter
+ODD_POOL = "ab\u00a0\u2029\u001c"   # U+001C is rejected by check_valid (kept to exercise the filter); U+2029 and NBSP are admitted
 
-KINDS = ["len_eq_ngram", "single_len", "mixed", "mixed", "sparse_alphabet", "dup_heavy", "nonascii", "long", "cp_empty"]
+KINDS = ["len_eq_ngram", "single_len", "mixed", "nonascii", "sparse_alphabet", "dup_heavy", "nonascii", "long", "cp_empty",
+         "big", "mixed", "len_eq_ngram", "single_len"]
 
 
 def _word(rng, pool, n):
@@ -89,6 +90,13 @@ def gen_training(rng, kind=None):
             pws.append(rng.choice([a + b, b + a, a + b + a + b, b + a + b]) if ngram == 2 else
                        rng.choice([a + b * (ngram - 1), b + a + b * ngram, a + b + a + b + a]))
         ngram = min(ngram, 3)
+    elif kind2 == "big":
+        # many passwords over few stems: IP levels between 1 and 9 appear (ip_count/total*250 < 1/e)
+        stems = [_word(rng, pool, rng.randint(ngram, ngram + 3)) for _ in range(rng.randint(8, 30))]
+        weights = [1.0 / (i + 1) ** rng.choice([1.0, 1.5, 2.0]) for i in range(len(stems))]
+        pws = rng.choices(stems, weights, k=rng.randint(700, 2500))
+        pws += [_word(rng, ASCII_POOL[:8], rng.randint(1, ngram + 3)) for _ in range(rng.randint(3, 30))]
+        asize = 8
     else:  # mixed / sparse_alphabet
         if kind2 == "sparse_alphabet":
             asize = rng.randint(1, max(1, len(set(pool)) - 1))
@@ -303,3 +311,72 @@ def coq_level(l):
 
 def coq_lines(pairs):
     return common.clist(["(%s, %s)" % (cnat(l), common.cstr(s)) for l, s in pairs]) if pairs else "(@nil (nat * list N))"
+
+
+# ---------------------------------------------------------------- candidates and the three-way oracle
+
+FOREIGN = ["Z", "\u00e9", " ", "\u2029", "\u044f", "0", "\u0085"]
+
+
+def walk(rng, T, n):
+    """A string of n characters following the trained transitions as long as possible."""
+    g = T.trainer.grammar
+    keys = list(g)
+    alpha = T.alphabet or "a"
+    if not keys or n == 0:
+        return "".join(rng.choice(alpha) for _ in range(n))
+    ip = [k for k in keys if g[k]["ip_count"] > 0] or keys
+    s = rng.choice(ip)
+    while len(s) < n:
+        pre = s[len(s) - (T.trainer.ngram - 1):]
+        nl = list(g.get(pre, {}).get("next_letter", {}))
+        s += rng.choice(nl) if nl and rng.random() < 0.9 else rng.choice(alpha)
+    return s[:n]
+
+
+def candidates(rng, T, E, n_members=40, n_extra=6):
+    ng, ml = T.trainer.ngram, T.trainer.max_length
+    out = []
+    seen = set()
+
+    def add(s, why):
+        if s not in seen:
+            seen.add(s)
+            out.append((s, why))
+    for p in T.cfg["passwords"]:
+        add(p, "training")
+    members = [s for L in sorted(E) for s in E[L][0]]
+    rng.shuffle(members)
+    for s in members[:n_members]:
+        add(s, "member")
+    for n in sorted({0, 1, ng - 1, ng, ng + 1, ml - 1, ml, ml + 1, ml + 2}):
+        if n < 0:
+            continue
+        for _ in range(2):
+            add(walk(rng, T, n), "boundary")
+        if T.alphabet:
+            add(T.alphabet[0] * n, "boundary")
+    base = [p for p in T.cfg["passwords"] if p] or ["a"]
+    for _ in range(n_extra):
+        p = rng.choice(base)
+        i = rng.randrange(len(p))
+        add(p[:i] + rng.choice(FOREIGN) + p[i + 1:], "foreign")
+        add(p[:i] + rng.choice(T.alphabet or "a") + p[i + 1:], "mutated")
+        add(p + rng.choice(T.alphabet or "a"), "mutated")
+        add(p[:-1], "mutated")
+    return out
+
+
+def guesser_level(s, E):
+    """(decided, level or None): the level at which the real MarkovCracker emitted s.
+    decided is False when s was not seen and some level was not enumerated completely."""
+    hits = [L for L in E if s in E[L][2]]
+    if hits:
+        return True, hits
+    return all(E[L][1] for L in E), []
+
+
+def enumerate_sets(G, levels, cap, seconds, total_seconds, shared=True):
+    """E[L] = (list in order, complete, set, error)"""
+    E0 = enumerate_all(G, levels, cap, seconds, total_seconds, shared)
+    return {L: (v[0], v[1], set(v[0]), v[2]) for L, v in E0.items()}
